@@ -229,6 +229,7 @@ func checkModel(ctx *pbt.Ctx, m ref.Tx) error {
 	ctx.Key(ext)
 
 	tx := ref.ToLib(m)
+	ctx.After(ref.Intact(tx))
 	// 1. serialisers against the reference encoder
 	if err := eqBytes("Bytes() vs reference standard encoding", tx.Bytes(), std); err != nil {
 		return err
